@@ -266,7 +266,21 @@ type c08Box struct {
 	off            float64 // shift applied to genClosedRing's [0,7] window (boxes around the origin)
 }
 
+func (b *c08Box) bound() orb.Bound {
+	return orb.Bound{Min: orb.Point{b.x0, b.y0}, Max: orb.Point{b.x1, b.y1}}
+}
+
 func (b *c08Box) ring() orb.Ring {
+	rg := b.ring0()
+	// one ring in six: some of its vertices are moved to a NEAR MISS of the box (clipnear.go: one ulp, a few
+	// ulps, 1e-15 .. 1e-7 inside or outside an edge, one or both coordinates); a closed ring stays closed
+	if b.c.Rng.Intn(6) == 0 {
+		rg = clipNudgeGeom(b.c.Rng, b.bound(), rg, 1+b.c.Rng.Intn(4)).(orb.Ring)
+	}
+	return rg
+}
+
+func (b *c08Box) ring0() orb.Ring {
 	if b.c.Rng.Intn(6) == 0 {
 		return genWrapRing(b.c.Rng, b.mode, b.x0, b.y0, b.x1, b.y1)
 	}
@@ -280,11 +294,27 @@ func (b *c08Box) ring() orb.Ring {
 	return rg
 }
 
-// near draws a coordinate in the box grown by 1 or by 2 on every side.
-func (b *c08Box) near() orb.Point {
+// nearCoord draws one coordinate around [lo, hi]: in the interval grown by 1 or by 2 (on the grid of the
+// mode), or — one time in four — exactly lo / exactly hi (general-position boxes have no other way to get
+// a 0-d / 1-d vertex ON the boundary) or a NEAR MISS of lo / hi, inside or outside (clipnear.go).
+func (b *c08Box) nearCoord(lo, hi float64) float64 {
 	r := b.c.Rng
+	switch r.Intn(8) {
+	case 0:
+		if r.Intn(2) == 0 {
+			return lo
+		}
+		return hi
+	case 1:
+		return clipNearCoord(r, lo, hi, false)
+	}
 	m := float64(1 + r.Intn(2))
-	return orb.Point{snap(b.mode, b.x0-m+r.Float64()*(b.x1-b.x0+2*m)), snap(b.mode, b.y0-m+r.Float64()*(b.y1-b.y0+2*m))}
+	return snap(b.mode, lo-m+r.Float64()*(hi-lo+2*m))
+}
+
+// near draws a point around the box (see nearCoord): points, multi-point members, line vertices, Bound corners.
+func (b *c08Box) near() orb.Point {
+	return orb.Point{b.nearCoord(b.x0, b.x1), b.nearCoord(b.y0, b.y1)}
 }
 
 func (b *c08Box) nearPts(max int) []orb.Point {
@@ -450,8 +480,100 @@ func fixedLine(s string) (op, in string) {
 	return op, strings.Join(out, " ")
 }
 
+// c08NearBoxes: the boxes of the deterministic near-miss sweep (around the origin included: the emptyBound
+// sentinel intersects it).
+var c08NearBoxes = []orb.Bound{
+	{Min: orb.Point{1, 2}, Max: orb.Point{3, 5}},
+	{Min: orb.Point{0, 0}, Max: orb.Point{1, 1}},
+	{Min: orb.Point{-2, -1.5}, Max: orb.Point{1.5, 2}},
+	{Min: orb.Point{0.3137066217615, 1.7713900482}, Max: orb.Point{2.90210746105, 3.1000000000001}},
+}
+
+// genC08Near: for every box above, axis, edge (lo / hi) and offset of clipNearOffsets (1, 2, 5 ulps, 1e-15 .. 1e-7,
+// inside and outside the edge): a vertex P with that coordinate, the other coordinate inside / exactly on
+// an edge of the other axis / the same near miss of it (next to a corner), in every kind of geometry —
+// point, multi-point (alone, with a far member, with an inside member), Bound (P as the near corner of a
+// Bound that otherwise lies inside, and of one that lies outside), line string, multi line string, ring and
+// polygon (a triangle with apex P; a rectangle with a side through P) — through clip.Geometry (`geom`),
+// clip.Ring (`ring`) and (*mvt.Layer).Clip (`layer`).  In every tier and run, sharded.
+func genC08Near(c *Ctx) {
+	idx := 0
+	for _, b := range c08NearBoxes {
+		bt := fmt.Sprintf("%s %s %s %s", fb(b.Min[0]), fb(b.Min[1]), fb(b.Max[0]), fb(b.Max[1]))
+		w := [2]float64{b.Max[0] - b.Min[0], b.Max[1] - b.Min[1]}
+		mid := orb.Point{b.Min[0] + w[0]*0.375, b.Min[1] + w[1]*0.625}
+		mid2 := orb.Point{b.Min[0] + w[0]*0.75, b.Min[1] + w[1]*0.25}
+		qs := spts([]orb.Point{mid, mid2, {b.Min[0] + w[0]*0.5, b.Min[1] + w[1]*0.5}})
+		for axis := 0; axis < 2; axis++ {
+			o := 1 - axis
+			for edge := 0; edge < 2; edge++ {
+				e, eo, sgn := b.Min[axis], b.Min[o], -1.0
+				if edge == 1 {
+					e, eo, sgn = b.Max[axis], b.Max[o], 1.0
+				}
+				offs, offsO := clipNearOffsets(e), clipNearOffsets(eo)
+				for k, v := range offs {
+					idx++
+					if !c.Mine(idx) {
+						continue
+					}
+					for other := 0; other < 3; other++ {
+						var p, far, out2 orb.Point
+						p[axis] = v
+						switch other {
+						case 0:
+							p[o] = mid[o]
+						case 1:
+							p[o] = eo
+						default:
+							p[o] = offsO[k%len(offsO)]
+						}
+						far[axis], far[o] = e+sgn*2*w[axis], mid[o]  // well outside, beyond the same edge
+						out2[axis], out2[o] = e+sgn*w[axis], mid2[o] // another point outside beyond that edge
+						// a Bound from P to an inside point / to an outside point, corners ordered
+						mk := func(a, q orb.Point) orb.Bound {
+							return orb.Bound{Min: orb.Point{math.Min(a[0], q[0]), math.Min(a[1], q[1])}, Max: orb.Point{math.Max(a[0], q[0]), math.Max(a[1], q[1])}}
+						}
+						// a rectangle with one side on the line (axis = v), reaching to the inside point mid2 / to the outside point out2
+						rect := func(q orb.Point) orb.Ring {
+							var a, bb, cc, d orb.Point
+							a[axis], a[o] = v, mid[o]
+							bb[axis], bb[o] = v, q[o]
+							cc[axis], cc[o] = q[axis], q[o]
+							d[axis], d[o] = q[axis], mid[o]
+							return orb.Ring{a, bb, cc, d, a}
+						}
+						gsv := []orb.Geometry{
+							p,
+							orb.MultiPoint{p}, orb.MultiPoint{p, far}, orb.MultiPoint{far, p, mid}, orb.MultiPoint{p, p},
+							mk(p, mid), mk(p, far),
+							orb.LineString{mid, p}, orb.LineString{p, out2}, orb.LineString{far, p}, orb.LineString{p, far, out2},
+							orb.MultiLineString{{mid, p}, {p, out2}}, orb.MultiLineString{{far, p}},
+							orb.Ring{mid, p, mid2, mid}, orb.Ring{far, p, out2, far},
+							rect(mid2), rect(out2),
+							orb.Polygon{rect(mid2)}, orb.Polygon{{far, p, out2, far}},
+							orb.MultiPolygon{{rect(out2)}, {{mid, p, mid2, mid}}},
+							orb.Collection{p, orb.MultiPoint{p, far}, orb.LineString{p, out2}, mk(p, far)},
+						}
+						var feats []string
+						for _, g := range gsv {
+							c.Case("geom", bt+" "+gs(g))
+							if rg, ok := g.(orb.Ring); ok {
+								c.Case("ring", bt+" "+spts(rg)+" "+qs)
+							}
+							feats = append(feats, gs(g))
+						}
+						c.Case("layer", fmt.Sprintf("%s 1 %d %s", bt, len(feats), strings.Join(feats, " ")))
+					}
+				}
+			}
+		}
+	}
+}
+
 func genC08(c *Ctx) {
 	r := c.Rng
+	genC08Near(c)
 	if c.Mine(0) {
 		for _, s := range c08Fixed {
 			op, in := fixedLine(s)
@@ -520,6 +642,9 @@ func genC08(c *Ctx) {
 			g = cl
 		default:
 			g = genGeom(r, GenOpts{Mode: []CoordMode{CoordSmallInt, CoordHalf, CoordModest}[mode], MaxPts: 6, MaxDepth: 2, TopNil: true}, 0)
+			if g != nil && r.Intn(3) == 0 { // the shared generator's geometry with some vertices next to the box edges
+				g = clipNudgeGeom(r, bx.bound(), g, 1+r.Intn(4))
+			}
 		}
 		c.Case("geom", box+" "+gs(g))
 
